@@ -193,6 +193,51 @@ def gen_base(rng: random.Random, n: int, k: int, depth: int = 2, consts: float =
     return conds
 
 
+def gen_tie_case(rng: random.Random, n: int):
+    """defaults-with-exceptions structure producing several incomparable minimal falsification sets
+    per layer and multi-layer ties: (x_i|g), (z_i|x_i), (!x_i|p) ...; returns (conds, queries)"""
+    atoms = list(range(n))
+    rng.shuffle(atoms)
+    p = ("a", atoms[0])
+    k = rng.randint(2, max(2, min(3, (n - 1) // 2 if n >= 5 else 2)))
+    xs = [("a", a) for a in atoms[1:1 + k]]
+    zs = [("a", a) for a in atoms[1 + k:1 + 2 * k]]
+    def lit(a):
+        return a if rng.random() < 0.8 else ("!", a)
+    conds = []
+    for x in xs:
+        guard = ("T",) if rng.random() < 0.6 else (lit(rng.choice(xs + zs)) if rng.random() < 0.5 else ("|", p, ("!", p)))
+        conds.append((x, guard))
+    for i, x in enumerate(xs):
+        if i < len(zs) and rng.random() < 0.8:
+            conds.append((lit(zs[i]), x))
+        if rng.random() < 0.75:
+            conds.append((("!", x), p if rng.random() < 0.8 else ("&", p, lit(rng.choice(xs)))))
+    if rng.random() < 0.3 and zs:
+        conds.append((lit(rng.choice(zs)), p))
+    if rng.random() < 0.3:
+        conds.append(gen_cond(rng, n, 1, 0.0))
+    rng.shuffle(conds)
+    queries = []
+    pool = xs + zs
+    for _ in range(6):
+        r = rng.random()
+        a1, a2 = rng.sample(xs, 2)
+        if r < 0.4:
+            ante = ("&", p, ("|", a1, a2))
+        elif r < 0.55:
+            ante = ("&", p, a1)
+        elif r < 0.7:
+            ante = ("|", a1, a2) if rng.random() < 0.5 else ("!", ("&", a1, a2))
+        elif r < 0.8:
+            ante = p
+        else:
+            ante = gen_formula(rng, n, 2, 0.0)
+        cons = lit(rng.choice(pool)) if rng.random() < 0.7 else gen_formula(rng, n, 1, 0.0)
+        queries.append((cons, ante))
+    return conds, queries
+
+
 # --------------------------------------------------------------------------------------
 # brute-force helpers used only to *classify* inputs for the evidence (never a verdict)
 # --------------------------------------------------------------------------------------
